@@ -2,10 +2,13 @@ package props
 
 import (
 	"context"
+	"crypto/sha256"
 	"database/sql"
 	"encoding/hex"
 	"encoding/json"
 	"fmt"
+	"github.com/btcsuite/btcd/btcec/v2/schnorr"
+	"github.com/decred/dcrd/dcrec/secp256k1/v4"
 	"math/big"
 	"os"
 	"path/filepath"
@@ -70,15 +73,23 @@ func c04Cases(quick bool) []c04Case {
 	}
 	muts = append(muts, "C=other-proof", "C=same-secret-other-amount", "C=empty", "C=oddhex", "C=32bytes", "C=uncompressed", "C=x0", "C=G", "C=Y(k=1)", "C=blinded")
 	muts = append(muts, "secret+1", "secret-1", "secret-case")
+	// the right point followed / preceded by junk that a lenient hex decoder would drop
+	muts = append(muts, "C=+0", "C=+zz", "C=+space", "C=+newline", "C=+0g", "C=+xyz0000", "C=space+", "C=+00")
+	// proofs whose NUT-10 spending condition is satisfied (right preimage / right signature in the witness): the
+	// condition check passing must not stand in for the mint's signature
+	muts = append(muts, "htlc-genuine", "htlc-forged-C=G", "htlc-forged-C=other", "p2pk-genuine", "p2pk-forged-C=G")
 	for _, ks := range []int{0, 1} {
 		for _, d := range denoms {
-			for _, via := range []string{"swap", "melt", "swap-second"} {
+			for _, via := range []string{"swap", "melt", "swap-second", "swap-after-htlc"} {
 				for _, m := range muts {
 					if m == fmt.Sprintf("amount=2^%d", log2(d)) {
 						continue
 					}
 					if via == "swap-second" && strings.HasPrefix(m, "C=flip") && m != "C=flip0" && m != "C=flip7" && m != "C=flip8" && m != "C=flip263" {
 						continue // position does not multiply the bit-flip family; amount / id / encoding / secret mutations all run in second position
+					}
+					if via == "swap-after-htlc" && m != "unchanged" && m != "C=G" && m != "C=other-proof" && m != "amount=2^5" && m != "id=other" && m != "secret+1" {
+						continue // behind a genuine HTLC input (whose condition check succeeds): a few representative forgeries
 					}
 					cs = append(cs, c04Case{ks, d, via, m})
 				}
@@ -365,6 +376,53 @@ func c04Worker(job json.RawMessage) (any, error) {
 			p.C = world.Y(p.Secret)
 		case c.mut == "C=blinded":
 			p.C = b.sig.C_
+		case c.mut == "C=+0":
+			p.C += "0"
+		case c.mut == "C=+zz":
+			p.C += "zz"
+		case c.mut == "C=+space":
+			p.C += " "
+		case c.mut == "C=+newline":
+			p.C += "\n"
+		case c.mut == "C=+0g":
+			p.C += "0g"
+		case c.mut == "C=+xyz0000":
+			p.C += "xyz0000"
+		case c.mut == "C=space+":
+			p.C = " " + p.C
+		case c.mut == "C=+00":
+			p.C += "00"
+		case strings.HasPrefix(c.mut, "htlc-") || strings.HasPrefix(c.mut, "p2pk-"):
+			// a proof honestly signed on a NUT-10 secret, presented with the witness that satisfies its condition
+			var secret, witness string
+			if strings.HasPrefix(c.mut, "htlc-") {
+				pre := sha256.Sum256([]byte(fmt.Sprintf("c04 preimage %d", i)))
+				h := sha256.Sum256(pre[:])
+				secret = fmt.Sprintf(`["HTLC",{"nonce":"%08x","data":"%x","tags":[]}]`, i, h)
+				witness = fmt.Sprintf(`{"preimage":"%x","signatures":[]}`, pre)
+			} else {
+				key := secp256k1.PrivKeyFromBytes([]byte("c04 p2pk lock key, 32 bytes long"))
+				secret = fmt.Sprintf(`["P2PK",{"nonce":"%08x","data":"%x","tags":[]}]`, i, key.PubKey().SerializeCompressed())
+				hs := sha256.Sum256([]byte(secret))
+				sg, _ := schnorr.Sign(key, hs[:])
+				witness = fmt.Sprintf(`{"signatures":["%x"]}`, sg.Serialize())
+			}
+			sp, err := w.mintOne(c.denom, secret)
+			if err != nil {
+				return c04Res{Err: "mint nut10 secret: " + err.Error()}, nil
+			}
+			p = sp.p
+			p.Witness = witness
+			switch {
+			case strings.HasSuffix(c.mut, "C=G"):
+				p.C = hex.EncodeToString(ref.ScalarBaseMult(big.NewInt(1)).SerializeCompressed())
+			case strings.HasSuffix(c.mut, "C=other"):
+				o, err := w.mintOne(c.denom, "")
+				if err != nil {
+					return c04Res{Err: err.Error()}, nil
+				}
+				p.C = o.p.C
+			}
 		case c.mut == "secret+1":
 			p.Secret += "0"
 		case c.mut == "secret-1":
@@ -411,6 +469,20 @@ func c04Worker(job json.RawMessage) (any, error) {
 			if opErr == nil {
 				delete(base, fmt.Sprintf("%d/%d", c.ks+10, c.denom))
 			}
+		case "swap-after-htlc":
+			pre := sha256.Sum256([]byte(fmt.Sprintf("c04 first preimage %d", i)))
+			h := sha256.Sum256(pre[:])
+			first, err := w.mintOne(c.denom, fmt.Sprintf(`["HTLC",{"nonce":"f%07x","data":"%x","tags":[]}]`, i, h))
+			if err != nil {
+				return c04Res{Err: err.Error()}, nil
+			}
+			first.p.Witness = fmt.Sprintf(`{"preimage":"%x","signatures":[]}`, pre)
+			amts := world.Split(first.p.Amount)
+			if exp >= 0 {
+				amts = append(amts, world.Split(p.Amount)...)
+			}
+			outs := w.u.Outputs(w.ids[1], amts...)
+			_, opErr = c04Guard(func() error { _, e := w.m.M.Swap(cashu.Proofs{first.p, p}, world.Msgs(outs)); return e })
 		case "melt":
 			comp, err := w.mintOne(2, "")
 			if err != nil {
